@@ -1084,7 +1084,8 @@ def clip_impl(a, a_min, a_max, out=None, *args, **kwargs):
     )
     if getattr(out, "units", None) is not None:
         out.units = a.units
-    return unyt_array(res, a.units, bypass_validation=True)
+    ret_cls = unyt_quantity if res.ndim == 0 else unyt_array
+    return ret_cls(res, a.units, bypass_validation=True)
 
 
 if NUMPY_VERSION >= Version("2.1.0.dev0"):
